@@ -24,7 +24,10 @@ const (
 	// runtime: goroutine stack exceeds 1000000000-byte limit
 	// fatal error: stack overflow. Was 250k but adding a log
 	// in Error() makes it go over that (somehow).
-	DefaultMaxDepth    = 150_000
+	DefaultMaxDepth = 150_000
+	// Levels of nested evaluation (Go recursion of evalInternal) allowed for each level of depth (Eval), on top of what
+	// the parser accepts as nesting of the source (a plain recursive function takes 2 or 3 for each level of depth).
+	nestingPerDepth    = 2
 	DefaultMaxDuration = 10 * time.Second
 )
 
@@ -43,6 +46,7 @@ type State struct {
 	// note that a simple function consumes at least 2 levels and typically at least 3 or 4.
 	MaxDepth    int
 	depth       int // current depth / recursion level
+	nesting     int // current nesting of evalInternal (all of them, not only the ones entered through Eval)
 	lastNumSet  int64
 	MaxValueLen int // max length of value to save in files, <= 0 for unlimited.
 	// To enforce a max duration or cancel evals.
@@ -87,6 +91,7 @@ func NewBlankState() *State {
 func (s *State) Reset() {
 	s.env = s.rootEnv
 	s.depth = 0
+	s.nesting = 0
 }
 
 // RegisterTrie sets up the Trie to record all top level ids and functions.
@@ -169,6 +174,20 @@ func (s *State) Eval(node any) object.Object {
 	return result
 }
 
+// evalInternal evaluates one node. Every level of nesting - of calls, but also of blocks, literals, arguments, operands -
+// is a level of recursion here, that is Go stack: it is bounded like (and in proportion to) the depth of calls, so that
+// what ends a runaway recursion is the recoverable 'max depth' failure whatever the shape of the recursive function.
+func (s *State) evalInternal(node any) object.Object {
+	if s.nesting > nestingPerDepth*s.MaxDepth+parser.MaxNesting {
+		log.LogVf("max depth %d reached (nesting %d)", s.MaxDepth, s.nesting)
+		panic(fmt.Sprintf("max depth %d reached (by %d levels of nested evaluation)", s.MaxDepth, s.nesting))
+	}
+	s.nesting++
+	res := s.evalNode(node)
+	s.nesting--
+	return res
+}
+
 // AddEvalResult adds the result of an evaluation (for instance a function object)
 // to the base identifiers. Used to add grol defined functions to the base environment
 // (e.g abs(), log2(), etc). Eventually we may instead `include("lib.gr")` or some such.
@@ -212,12 +231,16 @@ func EvalString(this any, code string, emptyEnv bool) (object.Object, error) {
 			maxDepth = evalState.MaxDepth // in case it's lower, carry that lower value.
 		}
 		var ctx context.Context
+		depth, nesting := 0, 0
 		if ok {
 			ctx = evalState.Context // the caller's deadline/cancellation applies to the nested evaluation too.
+			// ... and so does what the caller already used of the depth: it is the same Go stack.
+			depth, nesting = evalState.depth, evalState.nesting
 		}
 		evalState = NewBlankState()
 		evalState.MaxDepth = maxDepth
 		evalState.Context = ctx
+		evalState.depth, evalState.nesting = depth, nesting
 	} else {
 		if !ok {
 			return object.NULL, fmt.Errorf("invalid this: %T", this)
